@@ -1019,11 +1019,13 @@ SET_constraint(const asn_TYPE_descriptor_t *td, const void *sptr,
 		}
 
 		if(elm->encoding_constraints.general_constraints) {
-			return elm->encoding_constraints.general_constraints(
+			int ret = elm->encoding_constraints.general_constraints(
 					elm->type, memb_ptr, ctfailcb, app_key);
+			if(ret) return ret;
 		} else {
-			return elm->type->encoding_constraints.general_constraints(
+			int ret = elm->type->encoding_constraints.general_constraints(
 					elm->type, memb_ptr, ctfailcb, app_key);
+			if(ret) return ret;
 		}
 	}
 
